@@ -724,6 +724,12 @@ func (s *SliceExpression) Type() *Type {
 	return s.T
 }
 
+func (s *SliceExpression) infer() {
+	if s.T == EMPTY_ARRAY {
+		s.T = &Type{Name: ARRAY, Sub: ANY_TYPE, Fixed: true}
+	}
+}
+
 // DotExpression is an AST node that represents a field access
 // expression. A field access expression is an expression that accesses
 // the value of a field in a map, such as person.age.
